@@ -29,4 +29,28 @@ theorem tie_reservation_gates_precede_evict :
         g.1 == "IsReservationScheduled" || g.1 == "prepareJobWithReservationScheduleSuccess")).all (·.2) = true := by
   decide
 
+/-! ### extension: return shapes, mode dispatch, the shipped interpreter's lookup -/
+
+/-- `abortJobIfReservationBoundByAnotherPod`: a failed reservation lookup returns `true, err` (= "aborted", evictPod
+    returns before `Evict`), as does "bound by another pod"; only the last exit lets the eviction go on
+    (model: `boundByOther` / `boundByOtherX` stop on NotFound and on error) -/
+theorem tie_boundByOther_returns : C17.boundByOtherReturns = ["true, err", "true, err", "false, nil"] := by decide
+
+/-- `abortJobIfReserveOnSameNode`: same node ⇒ `true`; a pod Get that failed with anything but NotFound ⇒ the error is
+    returned (no eviction in this reconcile); otherwise `false, nil` (model: `prepareScheduleSuccessX`) -/
+theorem tie_sameNode_returns : C17.sameNodeReturns = ["true, err", "false, err", "false, nil"] := by decide
+
+/-- the mode dispatch of doMigrate is the rule `effDirect` implements: explicit EvictDirectly, or empty mode with the
+    default EvictDirectly -/
+theorem tie_direct_dispatch : C17.directDispatchCond =
+    "job.Spec.Mode == sev1alpha1.PodMigrationJobModeEvictionDirectly || (job.Spec.Mode == \"\" && r.args.DefaultJobMode == string(sev1alpha1.PodMigrationJobModeEvictionDirectly))" := by decide
+
+/-- `interpreterImpl.GetReservation` = Client.Get, on NotFound one more Get through the APIReader (model: `X.getResv`
+    issues a second read exactly when the first answered NotFound) -/
+theorem tie_getReservation_calls : C17.getReservationCalls = ["Get", "IsNotFound", "Get", "GetAPIReader"] := by decide
+
+/-- `interpreterImpl.DeleteReservation` = lookup by NAME, then Delete of the object found — no further condition
+    (model: `deleteReservation` / `deleteReservationX`) -/
+theorem tie_deleteReservation_calls : C17.deleteReservationCalls = ["GetReservation", "Delete", "OriginObject"] := by decide
+
 end KoordVerif.C17
